@@ -96,6 +96,19 @@ pub fn steered_create<S: ShortGroupSignatureScheme + 'static>(
     nonce: &[u8],
     reported: Option<Reported>,
 ) -> Out<Presentation<S>> {
+    steered_create_ext(credentials, prover_schema, verifier_schema, nonce, reported, vec![])
+}
+
+/// as `steered_create`, with transcript items of hand-made sub-proofs (`extra`) that the verifier will hash
+/// after everything the real prover contributes
+pub fn steered_create_ext<S: ShortGroupSignatureScheme + 'static>(
+    credentials: &IndexMap<String, PresentationCredential<S>>,
+    prover_schema: &PresentationSchema<S>,
+    verifier_schema: &PresentationSchema<S>,
+    nonce: &[u8],
+    reported: Option<Reported>,
+    extra: Vec<(Vec<u8>, Vec<u8>)>,
+) -> Out<Presentation<S>> {
     let n_pub_prover = public_prefix(prover_schema, nonce).len();
     let pub_verifier = Rc::new(public_prefix(verifier_schema, nonce));
     let reported = Rc::new(reported);
@@ -116,6 +129,7 @@ pub fn steered_create<S: ShortGroupSignatureScheme + 'static>(
             Some(r) => v.extend(substitute_disclosed(suffix, r)),
             None => v.extend_from_slice(suffix),
         }
+        v.extend(extra.iter().cloned());
         merlin::vlog::enable(false);
         let c = challenge_of(&v);
         merlin::vlog::enable(true);
